@@ -79,6 +79,12 @@ theorem offset_eq_flat (bs : List (Int × Int)) (is : List Int) (k : Nat) (h : o
     (k : Int) = flatF 0 (extents bs) ((normIdx bs is).map (· - 1)) :=
   LokiModel.C30.offset_eq_flat bs is k h
 
+/-- the section rewriting of `normalize_array_shape_and_access` (start and stop shifted, stride kept) preserves the element sequence -/
+theorem normalize_section (lo a b s : Int) :
+    tripCount (a - lo + 1) (b - lo + 1) s = tripCount a b s ∧
+    ∀ k : Nat, (a - lo + 1) + (k : Int) * s = (a + (k : Int) * s) - lo + 1 :=
+  LokiModel.C30.normalize_section lo a b s
+
 theorem offset_isSome_iff (bs : List (Int × Int)) (is : List Int) : (offset bs is).isSome ↔ InBounds bs is :=
   LokiModel.C30.offset_isSome_iff bs is
 
